@@ -439,7 +439,7 @@ def run(prog, rep, tier):
     # ---- FORMULA
     if not formula_ok:
         rep.unk("FORMULA.mean", fwhere(f, ctor[0].node, construct="population mean"), "the population moments are not a closed-form expression of the working copies (computed by a loop?): equality with (I - W^T)^-1 mu is not decided")
-    M = MNF(vectors=[mt, vt])
+    M = MNF(vectors=[mt, vt], atoms=[Wt])
     A = rinv(add(rI(), M.transpose(rA(Wt)), -1))
     ref_mean = mul(A, rA(mt))
     ref_cov = mul(mul(A, rD(rA(vt))), M.transpose(A))
